@@ -35,45 +35,26 @@ example : Xyz.SpecOK tables xyzL
       ⟨1, 3, [], [([' '], ⟨false, 5⟩), ([' '], ⟨true, 0⟩), ([' ', '\t'], ⟨false, 7⟩)], [' ']⟩]⟩ := by
   decide +kernel
 
-/-! ## SDF (CTfile V2000 column table)
+/-! ## SDF (CTfile V2000 column table) -/
 
-Full statement: `∀ m, Sdf.ColDom T Sdf.specV2000 m → Sdf.load T sdfL (Sdf.dump T Sdf.specV2000 m) = .ok m'` for every
-model the published columns can hold.  FALSE for the code as it is (`sdf_spec_violated_*`): the reader
-cuts no columns at all (`sdf_reader_splits`).  Proved on the complement of the touching-field files. -/
+/-- SDF: the slices of the reader in the source are the published columns (counts 1-3, 4-6; atom
+1-10, 11-20, 21-30, 32-34; bond 1-3, 4-6, 7-9), as are the columns of the hand-written spec layout. -/
+theorem sdf_reader_columns_match_spec :
+    Sdf.readerColumns sdfL = Sdf.specColumns ∧ Sdf.readerColumns Sdf.specV2000 = Sdf.specColumns ∧
+    sdfL.coordD = Sdf.specV2000.coordD ∧ Sdf.LayoutOK Sdf.specV2000 := by decide +kernel
 
-/-- SDF: the reader in the source slices no record by column; it uses `words[i]` of a blank split. -/
-theorem sdf_reader_splits : sdf_slices = [] ∧ sdf_words = Sdf.expectedWords := by decide +kernel
-
-/-- SDF: the columns the *writer* uses are the published ones (so C02 files are spec files), and the
-reader re-quantises to the published number of decimals. -/
-theorem sdf_writer_columns_match_spec :
-    Sdf.columns sdfL = Sdf.specColumns ∧ Sdf.columns Sdf.specV2000 = Sdf.specColumns ∧
-    sdfL.coordD = Sdf.specV2000.coordD := by decide +kernel
-
-/-- SDF, partial: a file rendered from the published column table whose fields do not touch is loaded
-as the model it was rendered from. -/
-theorem sdf_load_spec_partial (T : Tables) (L : Sdf.Layout) (hd : L.coordD = Sdf.specV2000.coordD)
-    (m : Sdf.Obj) (h : Sdf.Dom T Sdf.specV2000 m) :
+/-- SDF: a file rendered from the published column table is loaded as the model it was rendered from —
+every model the columns can hold, touching fields included — by any reader whose slices and decimals are
+the published ones (the reader in the source is one: `sdf_reader_columns_match_spec`). -/
+theorem sdf_load_spec (T : Tables) (L : Sdf.Layout) (hd : L.coordD = Sdf.specV2000.coordD)
+    (hs : Sdf.readerColumns L = Sdf.specColumns) (m : Sdf.Obj) (h : Sdf.Dom T Sdf.specV2000 m) :
     Sdf.load T L (Sdf.dump T Sdf.specV2000 m) = .ok (Sdf.norm Sdf.specV2000 m) := by
-  rw [Sdf.load_congr T L Sdf.specV2000 hd]
+  rw [Sdf.load_congr T L Sdf.specV2000 hd (by rw [hs]; decide +kernel)]
   exact Sdf.load_dump T Sdf.specV2000 (by decide +kernel) m h
 
-def sdfC110 : List Sdf.Atom := List.replicate 110 ⟨⟨false, 0⟩, ⟨false, 0⟩, ⟨false, 0⟩, 6⟩
-
-/-- SDF violated: the well-formed bond record `101110  1  0  0  0  0` (atoms 101 and 110, single bond)
-is loaded as a bond between atoms 101110 and 1 of type 0. -/
-theorem sdf_spec_violated_bond :
-    Sdf.ColDom tables Sdf.specV2000 ⟨['t'], sdfC110, [⟨100, 109, 1⟩]⟩ ∧
-    Sdf.dumpBond Sdf.specV2000 ⟨100, 109, 1⟩ = "101110  1  0  0  0  0\n".toList ∧
-    Sdf.load tables sdfL (Sdf.dump tables Sdf.specV2000 ⟨['t'], sdfC110, [⟨100, 109, 1⟩]⟩)
-      = .ok ⟨['t'], sdfC110, [⟨101109, 0, 0⟩]⟩ := by
-  decide +kernel
-
-/-- SDF violated: y = −1234.5678 directly after x is not read at all. -/
-theorem sdf_spec_violated_coord :
-    Sdf.ColDom tables Sdf.specV2000 ⟨['t'], [⟨⟨false, 5⟩, ⟨true, 12345678⟩, ⟨false, 0⟩, 1⟩], []⟩ ∧
-    failed (Sdf.load tables sdfL (Sdf.dump tables Sdf.specV2000 ⟨['t'], [⟨⟨false, 5⟩, ⟨true, 12345678⟩, ⟨false, 0⟩, 1⟩], []⟩))
-      = true := by
-  decide +kernel
+/-- non-vacuity: the bond record `101110  1  0  0  0  0` of the published layout is in the domain and
+is read as the bond (100, 109, 1). -/
+example : Sdf.dumpBond Sdf.specV2000 ⟨100, 109, 1⟩ = "101110  1  0  0  0  0\n".toList ∧
+    Sdf.loadBond sdfL (Sdf.dumpBond Sdf.specV2000 ⟨100, 109, 1⟩) = .ok ⟨100, 109, 1⟩ := by decide +kernel
 
 end Iodata.Props.C03
